@@ -50,6 +50,9 @@ let run line =
       last := (hist, n);
       if n - 1 < Array.length codes then codes.(n - 1) else Z0 in
     let model = show (json_c_visit userfunc v) in
+    (* the extracted reference traversal is run alongside as a cross-check of the glue (the
+       theorem says they agree); skipped on the large size-family inputs to halve their cost *)
+    if String.length tree > 1500 then model else
     let spec = show (spec_visit userfunc v) in
     if model <> spec then "SPEC-MISMATCH " ^ model ^ " <> " ^ spec else model
   | _ -> failwith "visit line"
